@@ -122,3 +122,61 @@ def emit_record(src, filt, cls, cname, profile, extra_flags=(), skip_fields=(), 
                 raise
         lines.append('  %s %s;' % (ct, name))
     return 'typedef struct %s {\n%s\n} %s;' % (cname, '\n'.join(lines), cname), [f[0] for f in fields]
+
+
+def _enum_decl_values(decl):
+    vals = {}
+    nxt = 0
+    for c in decl.get('inner', []):
+        if c.get('kind') != 'EnumConstantDecl':
+            continue
+        v = None
+        for i in c.get('inner', []):
+            vi = _const_value(i)
+            if vi is not None:
+                v = vi
+        if v is None:
+            v = nxt
+        vals[c['name']] = v
+        nxt = v + 1
+    return vals
+
+
+def enum_field_invariant(src, filt, cls, extra_flags=()):
+    """C macro body `(p)`-parametrised: every ENUM-typed data member of record `cls` holds one of its declared enumerators.
+    This is a type invariant of well-formed objects (an enum object outside its enumerators is not produced by the program);
+    harnesses that quantify over arbitrary member values state it in `requires`, otherwise a behaviour-preserving rewrite of an
+    if/else over a two-valued enum into a switch looks like a behaviour change.  Returns (expression with %s for the pointer, [fields])."""
+    fields, decl = record_fields(src, filt, cls, extra_flags)
+    inner = [c for c in decl.get('inner', []) if isinstance(c, dict)]
+    named = {c.get('name'): c for c in inner if c.get('kind') == 'EnumDecl' and c.get('name')}
+    conj = []
+    names = []
+    prev = None
+    for c in inner:
+        if c.get('kind') == 'FieldDecl':
+            q = c.get('type', {}).get('qualType', '')
+            vals = None
+            if 'unnamed' in q and prev is not None and prev.get('kind') == 'EnumDecl' and not prev.get('name'):
+                vals = _enum_decl_values(prev)
+            else:
+                base = strip_type(q)
+                if re.fullmatch(r'[A-Za-z_]\w*(::[A-Za-z_]\w*)*', base or ''):
+                    last = base.split('::')[-1]
+                    if last in named:
+                        vals = _enum_decl_values(named[last])
+                    else:
+                        try:
+                            vals = enum_values(src, base, extra_flags)
+                        except Exception:
+                            vals = None
+            if vals:
+                vs = sorted(set(vals.values()))
+                if len(vs) > 1 and vs == list(range(vs[0], vs[-1] + 1)):
+                    conj.append('((int)(%%s)->%s >= %d && (int)(%%s)->%s <= %d)' % (c['name'], vs[0], c['name'], vs[-1]))
+                else:
+                    conj.append('(' + ' || '.join('(int)(%%s)->%s == %d' % (c['name'], v) for v in vs) + ')')
+                names.append(c['name'])
+        if c.get('kind') in ('EnumDecl', 'FieldDecl'):
+            prev = c
+    return (' && '.join(conj) if conj else '1'), names
